@@ -82,11 +82,14 @@ type lcSpec struct {
 	n, k, m     int
 	errtext     string
 	resp        bool
+	pre         string // what the server has sent before the scenario proper (see lcPrelude)
+	tcp         bool   // over a loopback TCP connection made by Client.Connect() (set by the suite)
 	ok          bool
 }
 
-var lcKinds = []string{"close", "quit", "error", "eof", "erroreof", "werr", "badline"}
+var lcKinds = []string{"close", "quit", "error", "eof", "erroreof", "werr", "badline", "qwf", "wfault"}
 var lcPlaces = []string{"reg", "after001", "burst", "slow", "txq"}
+var lcPreludes = []string{"capcont", "capls", "capack", "capnak", "sasl", "isupport", "names", "motd", "welcome", "all"}
 
 func lcParseSpec(s string) lcSpec {
 	f := strings.Split(s, "/")
@@ -94,6 +97,15 @@ func lcParseSpec(s string) lcSpec {
 		return lcSpec{}
 	}
 	sp := lcSpec{kind: f[0], place: f[1], errtext: f[5], resp: len(f) > 6 && f[6] == "resp"}
+	if len(f) > 8 || (len(f) > 6 && f[6] != "resp" && f[6] != "-") {
+		return lcSpec{}
+	}
+	if len(f) > 7 && f[7] != "-" {
+		if !lcIn(f[7], lcPreludes) {
+			return lcSpec{}
+		}
+		sp.pre = f[7]
+	}
 	var err1, err2, err3 error
 	sp.n, err1 = strconv.Atoi(f[2])
 	sp.k, err2 = strconv.Atoi(f[3])
@@ -128,7 +140,12 @@ func lcIn(s string, l []string) bool {
 
 func (sp lcSpec) String() string {
 	s := fmt.Sprintf("%s/%s/%d/%d/%d/%s", sp.kind, sp.place, sp.n, sp.k, sp.m, sp.errtext)
-	if sp.resp {
+	switch {
+	case sp.pre != "" && sp.resp:
+		s += "/resp/" + sp.pre
+	case sp.pre != "":
+		s += "/-/" + sp.pre
+	case sp.resp:
 		s += "/resp"
 	}
 	return s
@@ -154,8 +171,31 @@ func (sp lcSpec) allowed() []string {
 		return []string{ee, "ioerr"}
 	case "badline":
 		return []string{"parse"}
+	case "qwf":
+		// the sending direction breaks, then Quit(): the failed write of the QUIT is ignored;
+		// other output still on its way (registration, queued lines) fails with an error
+		if sp.place == "reg" || sp.place == "txq" {
+			return []string{"nil", "ioerr"}
+		}
+		return []string{"nil"}
+	case "wfault":
+		return []string{"ioerr"}
 	}
 	return nil
+}
+
+// lcFaultConn is the client's end of the pipe; once fail is set every Write fails while reads
+// keep working (a link broken in the sending direction only).
+type lcFaultConn struct {
+	net.Conn
+	fail *atomic.Bool
+}
+
+func (f *lcFaultConn) Write(b []byte) (int, error) {
+	if f.fail.Load() {
+		return 0, fmt.Errorf("injected write fault")
+	}
+	return f.Conn.Write(b)
 }
 
 // lcPanic is what the harness records when Connect itself panicked.
@@ -241,6 +281,11 @@ type lcConn struct {
 	resume      chan struct{}
 	peerShut    atomic.Bool // the peer closed its own end
 	panicked    atomic.Bool // Connect panicked: never call into the client again
+	failWrites  atomic.Bool // the client's writes fail from now on (pipe transport)
+	snapshot    string      // tracked state when the first registration line was on the wire
+	ln          net.Listener
+	fdBase      int
+	tcpProblems []string
 	selfClosing atomic.Bool // the peer is about to close its own end (answering a QUIT)
 	sawEOF      atomic.Bool
 
@@ -406,7 +451,10 @@ func (cn *lcConn) reader() {
 			}
 		}
 		if err != nil {
-			if err == io.EOF && !cn.peerShut.Load() {
+			// the end of the stream: EOF, or on TCP a reset (a client that closes its socket with
+			// unread data in its receive buffer answers with RST instead of FIN) - as long as it
+			// is not the peer's own close that ended the read
+			if !cn.peerShut.Load() && (err == io.EOF || cn.sp.tcp) {
 				cn.sawEOF.Store(true)
 				cn.log.add("Z")
 			}
@@ -516,6 +564,17 @@ func (cn *lcConn) stimulus(pre, extra []string) {
 		cn.peerClose()
 	case "badline":
 		cn.peerLines(join("?"))
+	case "qwf", "wfault":
+		// the client's sending direction breaks; everything written so far has reached the
+		// peer except in the placements where output is deliberately still under way
+		cn.log.add("F")
+		cn.failWrites.Store(true)
+		if cn.sp.kind == "qwf" {
+			cn.log.add("q" + "bye" + cn.letter)
+			cn.c.Quit("bye" + cn.letter)
+		} else {
+			cn.appSend(20)
+		}
 	}
 }
 
@@ -525,6 +584,135 @@ func (cn *lcConn) resumeReader() {
 	default:
 		close(cn.resume)
 	}
+}
+
+// ---------------------------------------------------------------- prelude and state snapshot
+
+// rawPeer writes server lines that are NOT part of the observed alphabet (no ids): the
+// machine does not see them, the tracked state of the implementation does.
+func (cn *lcConn) rawPeer(lines ...string) {
+	if cn.panicked.Load() {
+		return
+	}
+	cn.in.SetWriteDeadline(time.Now().Add(lcStepBound))
+	cn.in.Write([]byte(strings.Join(lines, "\r\n") + "\r\n"))
+}
+
+// waitRecv waits until the peer has read a line satisfying pred.
+func (cn *lcConn) waitRecv(pred func(string) bool) (string, bool) {
+	deadline := time.Now().Add(lcStepBound)
+	for {
+		cn.mu.Lock()
+		for _, l := range cn.recvAll {
+			if pred(l) {
+				cn.mu.Unlock()
+				return l, true
+			}
+		}
+		cn.mu.Unlock()
+		select {
+		case <-cn.retCh:
+			return "", false
+		default:
+		}
+		if time.Now().After(deadline) {
+			return "", false
+		}
+		time.Sleep(200 * time.Microsecond)
+	}
+}
+
+// advertised capabilities differ per connection, so that a leak from one into the next shows
+func (cn *lcConn) caps() []string {
+	if cn.letter == "a" {
+		return []string{"account-notify", "away-notify", "extended-join"}
+	}
+	return []string{"multi-prefix", "userhost-in-names"}
+}
+
+// prelude brings the connection to some point of an ordinary session before the scenario
+// proper: mid capability negotiation, authenticated, after ISUPPORT, mid NAMES, mid MOTD ...
+// It ends with a PING/PONG round trip: everything before it has been processed and every
+// answer of the client has been written.
+func (cn *lcConn) prelude() {
+	pre := cn.sp.pre
+	if pre == "" {
+		return
+	}
+	capsLine := strings.Join(cn.caps(), " ")
+	has := func(names ...string) bool { return lcIn(pre, names) }
+	if has("welcome", "all") {
+		cn.rawPeer(":srv 001 me" + cn.letter + " :Welcome")
+	}
+	if has("isupport", "all") {
+		cn.rawPeer(":srv 005 me LINELEN=2048 NICKLEN=30 USERLEN=12 HOSTLEN=70 NETWORK=net" + cn.letter + " CHANTYPES=# :are supported by this server")
+	}
+	if has("names", "all") {
+		cn.rawPeer(":me!user@host"+cn.letter+" JOIN #pre"+cn.letter, ":srv 353 me = #pre"+cn.letter+" :me @op"+cn.letter+" +voice"+cn.letter)
+	}
+	if has("motd", "all") {
+		cn.rawPeer(":srv 375 me :- srv Message of the day -", ":srv 372 me :- line "+cn.letter)
+	}
+	switch {
+	case has("capcont"):
+		cn.rawPeer(":srv CAP * LS * :" + capsLine)
+	case has("capls"):
+		cn.rawPeer(":srv CAP * LS :" + capsLine)
+		cn.waitRecv(func(l string) bool { return strings.HasPrefix(l, "CAP REQ") })
+	case has("capack", "all"):
+		cn.rawPeer(":srv CAP * LS :" + capsLine)
+		if req, ok := cn.waitRecv(func(l string) bool { return strings.HasPrefix(l, "CAP REQ") }); ok {
+			if ev := girc.ParseEvent(req); ev != nil {
+				cn.rawPeer(":srv CAP * ACK :" + ev.Last())
+			}
+		}
+	case has("capnak"):
+		cn.rawPeer(":srv CAP * LS :" + capsLine)
+		if req, ok := cn.waitRecv(func(l string) bool { return strings.HasPrefix(l, "CAP REQ") }); ok {
+			if ev := girc.ParseEvent(req); ev != nil {
+				cn.rawPeer(":srv CAP * NAK :" + ev.Last())
+			}
+		}
+	case has("sasl"):
+		cn.rawPeer(":srv CAP * LS :sasl=PLAIN " + capsLine)
+		if req, ok := cn.waitRecv(func(l string) bool { return strings.HasPrefix(l, "CAP REQ") }); ok {
+			if ev := girc.ParseEvent(req); ev != nil {
+				cn.rawPeer(":srv CAP * ACK :" + ev.Last())
+			}
+		}
+		if _, ok := cn.waitRecv(func(l string) bool { return strings.HasPrefix(l, "AUTHENTICATE PLAIN") }); ok {
+			cn.rawPeer("AUTHENTICATE +")
+			cn.waitRecv(func(l string) bool {
+				return strings.HasPrefix(l, "AUTHENTICATE ") && !strings.HasPrefix(l, "AUTHENTICATE PLAIN")
+			})
+		}
+	}
+	cn.rawPeer(":srv PING :sync" + cn.letter)
+	if _, ok := cn.waitRecv(func(l string) bool { return strings.HasPrefix(l, "PONG") && strings.HasSuffix(l, "sync"+cn.letter) }); !ok {
+		select {
+		case <-cn.retCh:
+		default:
+			cn.problem("harness-timeout: prelude %s not answered", pre)
+		}
+	}
+}
+
+// lcSnapshot renders everything state.reset is responsible for.
+func lcSnapshot(c *girc.Client) string {
+	tmp, enabled := c.VerifCapState()
+	line, prefix := c.VerifLimits()
+	keys, vals := c.VerifServerOptions()
+	sts := c.VerifSTSState()
+	return fmt.Sprintf("tmpCap=%q enabledCap=%q maxLineLength=%d maxPrefixLength=%d serverOptions=%q=%q motd=%q channels=%q users=%q nick=%q ident=%q host=%q sts=%+v",
+		tmp, enabled, line, prefix, keys, vals, c.ServerMOTD(), c.ChannelList(), c.UserList(), c.GetNick(), c.GetIdent(), c.GetHost(), sts)
+}
+
+func lcCountFDs() int {
+	d, err := os.ReadDir("/proc/self/fd")
+	if err != nil {
+		return -1
+	}
+	return len(d)
 }
 
 type lcConnResult struct {
@@ -555,10 +743,29 @@ func (cn *lcConn) run(cur *atomic.Value) lcConnResult {
 	}
 	cur.Store(cn)
 
-	in, out := net.Pipe()
-	cn.in = in
+	var out net.Conn
+	var accepted chan net.Conn
+	if sp.tcp {
+		cn.fdBase = lcCountFDs()
+		accepted = make(chan net.Conn, 1)
+		go func() {
+			c, err := cn.ln.Accept()
+			if err != nil {
+				close(accepted)
+				return
+			}
+			accepted <- c
+		}()
+	} else {
+		var in net.Conn
+		in, out = net.Pipe()
+		out = &lcFaultConn{Conn: out, fail: &cn.failWrites}
+		cn.in = in
+	}
 	cn.log.add("C1" + strings.Join(cn.regs, "\x00"))
-	go cn.reader()
+	if !sp.tcp {
+		go cn.reader()
+	}
 	done := make(chan error, 1)
 	go func() {
 		var err error
@@ -571,8 +778,26 @@ func (cn *lcConn) run(cur *atomic.Value) lcConnResult {
 			close(cn.retCh)
 			done <- err
 		}()
-		err = cn.c.MockConnect(out)
+		if sp.tcp {
+			err = cn.c.Connect() // default dialer: a genuine *net.TCPConn
+		} else {
+			err = cn.c.MockConnect(out)
+		}
 	}()
+	if sp.tcp {
+		select {
+		case c, ok := <-accepted:
+			if !ok {
+				cn.problem("harness-setup: accept failed")
+				return res
+			}
+			cn.in = c
+		case <-time.After(lcStepBound):
+			cn.problem("harness-timeout: no TCP connection accepted")
+			return res
+		}
+		go cn.reader()
+	}
 
 	burst := func(from, to int) []string {
 		var l []string
@@ -581,21 +806,39 @@ func (cn *lcConn) run(cur *atomic.Value) lcConnResult {
 		}
 		return l
 	}
-	appKind := sp.kind == "close" || sp.kind == "quit"
+	appKind := sp.kind == "close" || sp.kind == "quit" || sp.kind == "qwf" || sp.kind == "wfault"
 
-	switch sp.place {
-	case "reg":
-		if !cn.waitStep(cn.firstLine) {
-			cn.problem("harness-timeout: no registration line")
-		}
-		cn.stimulus(nil, nil)
-	case "after001":
+	// The first registration line is on the wire: state.reset and drainQueues are done and the
+	// peer has not sent anything yet - the tracked state must be that of a fresh client.
+	if !cn.waitStep(cn.firstLine) {
+		cn.problem("harness-timeout: no registration line")
+	}
+	if !cn.panicked.Load() {
+		cn.snapshot = lcSnapshot(cn.c)
+	}
+	faultKind := sp.kind == "qwf" || sp.kind == "wfault"
+	if sp.place != "reg" {
 		if !cn.waitStep(cn.regDone) {
 			cn.problem("harness-timeout: registration incomplete")
 		}
-		cn.peerLines([]string{"W" + cn.id(0), "J" + cn.id(1)})
-		if !cn.waitDelivered(2) {
-			cn.problem("harness-timeout: 001/JOIN not delivered")
+		cn.prelude()
+	}
+
+	switch sp.place {
+	case "reg":
+		cn.stimulus(nil, nil)
+	case "after001":
+		if faultKind {
+			// no JOIN: its WHO/MODE answers would be output under way when the fault strikes
+			cn.peerLines([]string{"W" + cn.id(0)})
+			if !cn.waitDelivered(1) {
+				cn.problem("harness-timeout: 001 not delivered")
+			}
+		} else {
+			cn.peerLines([]string{"W" + cn.id(0), "J" + cn.id(1)})
+			if !cn.waitDelivered(2) {
+				cn.problem("harness-timeout: 001/JOIN not delivered")
+			}
 		}
 		cn.stimulus(nil, nil)
 	case "burst":
@@ -710,14 +953,45 @@ func (cn *lcConn) run(cur *atomic.Value) lcConnResult {
 			res.eof = true // the peer closed itself; nothing to observe
 		} else {
 			lcWaitCh(cn.eofCh, lcSettleBound)
-			res.eof = cn.sawEOF.Load()
+			// (the peer may have read a QUIT in the meantime and be closing on its own)
+			res.eof = cn.sawEOF.Load() || cn.peerShut.Load() || cn.selfClosing.Load()
+		}
+	}
+	// library goroutines must be gone because the CLIENT closed its socket, not because the
+	// peer hangs up afterwards: look before the peer closes its end
+	if res.returned {
+		res.leak, res.leakInfo = lcSettleGoroutines()
+	}
+	if sp.tcp && res.returned && res.eof && !cn.peerShut.Load() && !cn.selfClosing.Load() {
+		// a closed TCP socket answers further data with a reset: the server's writes must
+		// start failing (a merely half-closed one accepts them for ever)
+		failed := false
+		deadline := time.Now().Add(lcSettleBound)
+		for n := 0; time.Now().Before(deadline); n++ {
+			cn.in.SetWriteDeadline(time.Now().Add(time.Second))
+			if _, err := cn.in.Write([]byte(":srv PING :probe\r\n")); err != nil {
+				failed = true
+				break
+			}
+			time.Sleep(5 * time.Millisecond)
+		}
+		if !failed {
+			cn.tcpProblems = append(cn.tcpProblems, fmt.Sprintf("socket-half-open: the server could keep writing to the client for %v after Connect returned: the client's socket is not closed", lcSettleBound))
 		}
 	}
 	cn.peerShut.Store(true)
 	cn.in.Close()
 	lcWaitCh(cn.readerEnd, lcSettleBound)
-	if res.returned {
-		res.leak, res.leakInfo = lcSettleGoroutines()
+	if sp.tcp && res.returned && cn.fdBase >= 0 {
+		deadline := time.Now().Add(lcSettleBound)
+		n := lcCountFDs()
+		for n > cn.fdBase && time.Now().Before(deadline) {
+			time.Sleep(time.Millisecond)
+			n = lcCountFDs()
+		}
+		if n > cn.fdBase {
+			cn.tcpProblems = append(cn.tcpProblems, fmt.Sprintf("fd-leak: %d open descriptors before Connect, %d still open %v after it returned and the server closed", cn.fdBase, n, lcSettleBound))
+		}
 	}
 	return res
 }
@@ -850,7 +1124,7 @@ func lcIsPrefix(a, b []string) bool {
 }
 
 // lcCheckConn evaluates the property's clauses on one finished connection.
-func lcCheckConn(cn *lcConn, res lcConnResult, first *lcConn) []string {
+func lcCheckConn(cn *lcConn, res lcConnResult, first *lcConn, fresh string) []string {
 	var bad []string
 	add := func(class, format string, a ...interface{}) {
 		bad = append(bad, class+": conn "+cn.letter+" "+cn.sp.String()+": "+fmt.Sprintf(format, a...))
@@ -925,6 +1199,29 @@ func lcCheckConn(cn *lcConn, res lcConnResult, first *lcConn) []string {
 			add("flush-before-error", "returned ErrEvent but the last delivered event is not that ERROR: %q", own)
 		}
 	}
+	// every connection starts from the tracked state of a fresh client (state.reset)
+	if cn.snapshot != "" && cn.snapshot != fresh {
+		add("state-not-reset", "tracked state when the registration started: %s; a fresh client has: %s", cn.snapshot, fresh)
+	}
+	// capabilities requested on this connection were advertised on this connection
+	adv := cn.caps()
+	if cn.sp.pre == "sasl" {
+		adv = append(adv, "sasl")
+	}
+	for _, l := range cn.recvAll {
+		ev := girc.ParseEvent(l)
+		if ev == nil || ev.Command != girc.CAP || len(ev.Params) < 2 || ev.Params[0] != girc.CAP_REQ {
+			continue
+		}
+		for _, name := range strings.Fields(ev.Last()) {
+			if !lcIn(name, adv) || !lcIn(cn.sp.pre, []string{"capls", "capack", "capnak", "sasl", "all"}) {
+				add("stale-cap-req", "CAP REQ names %q, this server advertised %q (prelude %q)", name, adv, cn.sp.pre)
+			}
+		}
+	}
+	for _, p := range cn.tcpProblems {
+		bad = append(bad, p+" (conn "+cn.letter+" "+cn.sp.String()+")")
+	}
 	// second connection: fresh tracked state, nothing of the first on the wire
 	if first != nil {
 		if cn.chansAtInit != 0 {
@@ -967,7 +1264,25 @@ func lcRunSession(specs []lcSpec) Result {
 	t0 := time.Now()
 	log := &lcLog{}
 	var cur atomic.Value
-	cfg := girc.Config{Server: "irc.test", Port: 6667, Nick: "me", User: "user", Name: "Real Name", AllowFlood: true}
+	cfg := girc.Config{Server: "irc.test", Port: 6667, Nick: "me", User: "user", Name: "Real Name", AllowFlood: true,
+		SASL: &girc.SASLPlain{User: "acct", Pass: "secret"}}
+	var ln net.Listener
+	if len(specs) > 0 && specs[0].tcp {
+		var err error
+		ln, err = net.Listen("tcp", "127.0.0.1:0")
+		if err != nil {
+			// no loopback TCP in this environment: nothing can be observed, nothing is claimed
+			var obs []string
+			for _, sp := range specs {
+				obs = append(obs, strings.Join(sp.allowed(), ","))
+			}
+			return Result{Obs: strings.Join(obs, "|"), Sig: "trivial-no-loopback-tcp"}
+		}
+		defer ln.Close()
+		cfg.Server = "127.0.0.1"
+		cfg.Port = ln.Addr().(*net.TCPAddr).Port
+	}
+	fresh := lcSnapshot(girc.New(cfg))
 	c := girc.New(cfg)
 	c.Handlers.Add(girc.ALL_EVENTS, func(cl *girc.Client, e girc.Event) {
 		if cn, _ := cur.Load().(*lcConn); cn != nil {
@@ -977,9 +1292,9 @@ func lcRunSession(specs []lcSpec) Result {
 	var obs, sig, bad []string
 	var first *lcConn
 	for i, sp := range specs {
-		cn := &lcConn{sp: sp, letter: string(rune('a' + i)), log: log, c: c}
+		cn := &lcConn{sp: sp, letter: string(rune('a' + i)), log: log, c: c, ln: ln}
 		res := cn.run(&cur)
-		bad = append(bad, lcCheckConn(cn, res, first)...)
+		bad = append(bad, lcCheckConn(cn, res, first, fresh)...)
 		if lcIn(res.class, sp.allowed()) && res.returned {
 			obs = append(obs, strings.Join(sp.allowed(), ","))
 		} else if !res.returned {
@@ -991,7 +1306,11 @@ func lcRunSession(specs []lcSpec) Result {
 		if j := strings.IndexByte(cls, '='); j >= 0 {
 			cls = cls[:j]
 		}
-		sig = append(sig, sp.kind+"/"+sp.place+">"+cls)
+		pre := ""
+		if sp.pre != "" && sp.place != "reg" {
+			pre = "~" + sp.pre
+		}
+		sig = append(sig, sp.kind+"/"+sp.place+pre+">"+cls)
 		if first == nil {
 			first = cn
 		}
@@ -1035,6 +1354,9 @@ func lcGenSpec(r *rand.Rand, letter string) lcSpec {
 	sp := lcSpec{kind: lcKinds[r.Intn(len(lcKinds))], place: lcPlaces[r.Intn(len(lcPlaces))], ok: true}
 	sp.errtext = "E" + letter + strconv.Itoa(r.Intn(90)+10)
 	sp.resp = sp.kind == "quit" && r.Intn(2) == 0
+	if r.Intn(3) > 0 {
+		sp.pre = lcPreludes[r.Intn(len(lcPreludes))]
+	}
 	switch sp.place {
 	case "burst":
 		sp.n = 1 + r.Intn(40)
@@ -1058,7 +1380,7 @@ func lcFixedSessions() []Case {
 	i := 0
 	for _, k := range lcKinds {
 		for _, p := range lcPlaces {
-			sp := lcSpec{kind: k, place: p, errtext: "Ea" + strconv.Itoa(10+i)}
+			sp := lcSpec{kind: k, place: p, errtext: "Ea" + strconv.Itoa(10+i), pre: lcPreludes[i%len(lcPreludes)]}
 			switch p {
 			case "burst":
 				sp.n, sp.k = 12, 5
@@ -1071,6 +1393,9 @@ func lcFixedSessions() []Case {
 			k2 := lcKinds[i%len(lcKinds)]
 			p2 := lcPlaces[(i/2)%len(lcPlaces)]
 			sp2 := lcSpec{kind: k2, place: p2, errtext: "Eb" + strconv.Itoa(10+i), n: 6, k: 3, m: 3}
+			if i%3 == 0 {
+				sp2.pre = lcPreludes[(i/3)%len(lcPreludes)]
+			}
 			if p2 == "reg" || p2 == "after001" {
 				sp2.n, sp2.k, sp2.m = 0, 0, 0
 			}
@@ -1083,13 +1408,77 @@ func lcFixedSessions() []Case {
 			i++
 		}
 	}
+	// connection 1 ends at every point of an ordinary session start-up; connection 2 negotiates
+	// capabilities with a server advertising a different set
+	for j, pre := range lcPreludes {
+		k1 := []string{"eof", "error", "close"}[j%3]
+		cs = append(cs, Case{k1 + "/after001/0/0/0/Ea" + strconv.Itoa(60+j) + "/-/" + pre,
+			"close/after001/0/0/0/Eb" + strconv.Itoa(60+j) + "/-/" + []string{"capls", "capack", "all"}[j%3]})
+	}
 	// a server-like peer answering QUIT
 	cs = append(cs, Case{"quit/after001/0/0/0/Ea90/resp", "quit/burst/8/4/0/Eb90/resp"})
 	cs = append(cs, Case{"quit/slow/10/3/0/Ea91/resp", "close/reg/0/0/0/Eb91"})
 	return cs
 }
 
+// lcRunCase parses and runs a case; tcp selects the transport for all its connections.
+func lcRunCase(c Case, tcp bool) Result {
+	if len(c) == 0 || len(c) > 3 {
+		return Result{Obs: lcBadObs(c), Sig: "trivial-badcase"}
+	}
+	var specs []lcSpec
+	for _, a := range c {
+		sp := lcParseSpec(a)
+		if sp.ok && tcp && (sp.place == "txq" || sp.kind == "qwf" || sp.kind == "wfault" || sp.kind == "werr") {
+			sp.ok = false // these need the synchronous, wrappable pipe
+		}
+		if !sp.ok {
+			// a shrunk/garbled case is trivial, never an alarm (the driver prints the same)
+			return Result{Obs: lcBadObs(c), Sig: "trivial-badcase"}
+		}
+		sp.tcp = tcp
+		specs = append(specs, sp)
+	}
+	return lcRunSession(specs)
+}
+
+var lcTCPKinds = []string{"close", "quit", "error", "eof", "erroreof", "badline"}
+var lcTCPPlaces = []string{"reg", "after001", "burst", "slow"}
+
+func lcGenTCPSpec(r *rand.Rand, letter string) lcSpec {
+	for {
+		sp := lcGenSpec(r, letter)
+		if lcIn(sp.kind, lcTCPKinds) && lcIn(sp.place, lcTCPPlaces) {
+			if sp.n > 12 {
+				sp.n = 12
+				if sp.k > sp.n {
+					sp.k = sp.n
+				}
+			}
+			return sp
+		}
+	}
+}
+
 func init() {
+	Register(&Suite{
+		Name: "lifecycle.tcp",
+		Prop: []string{"C07"},
+		Fixed: func() []Case {
+			// the kinds in which the server stays (close, quit, error) are those where a socket
+			// that is not really closed can be told from the server side
+			return []Case{
+				{"close/after001/0/0/0/Ea70", "quit/reg/0/0/0/Eb70"},
+				{"quit/after001/0/0/0/Ea71", "error/after001/0/0/0/Eb71"},
+				{"error/burst/6/3/0/Ea72/-/capack", "close/slow/5/2/0/Eb72"},
+				{"close/reg/0/0/0/Ea73", "eof/after001/0/0/0/Eb73"},
+			}
+		},
+		Gen: func(r *rand.Rand) Case {
+			return Case{lcGenTCPSpec(r, "a").String(), lcGenTCPSpec(r, "b").String()}
+		},
+		Run: func(c Case) Result { return lcRunCase(c, true) },
+	})
 	Register(&Suite{
 		Name:  "lifecycle.sessions",
 		Prop:  []string{"C07"},
@@ -1097,22 +1486,7 @@ func init() {
 		Gen: func(r *rand.Rand) Case {
 			return Case{lcGenSpec(r, "a").String(), lcGenSpec(r, "b").String()}
 		},
-		Run: func(c Case) Result {
-			if len(c) == 0 || len(c) > 3 {
-				return Result{Obs: lcBadObs(c), Sig: "trivial-badcase"}
-			}
-			var specs []lcSpec
-			for _, a := range c {
-				sp := lcParseSpec(a)
-				if !sp.ok {
-					// what the driver prints for a spec it cannot read is "?kind" too; a
-					// shrunk/garbled case is trivial, never an alarm
-					return Result{Obs: lcBadObs(c), Sig: "trivial-badcase"}
-				}
-				specs = append(specs, sp)
-			}
-			return lcRunSession(specs)
-		},
+		Run: func(c Case) Result { return lcRunCase(c, false) },
 	})
 }
 
@@ -1128,7 +1502,7 @@ func lcBadObs(c Case) string {
 			}
 			return ""
 		}
-		sp := lcSpec{kind: get(0), errtext: get(5), resp: get(6) == "resp"}
+		sp := lcSpec{kind: get(0), place: get(1), errtext: get(5), resp: get(6) == "resp"}
 		if al := sp.allowed(); al != nil {
 			p = append(p, strings.Join(al, ","))
 		} else {
